@@ -161,7 +161,7 @@ func Minimize(sc *h.Scenario, choices []int32, test func(*h.Scenario, []int32) b
 					continue
 				}
 				op := (*get(cur))[i]
-				if shared && (IsMutator(op.K) || op.K == h.OpAdd || op.K == h.OpJoin) {
+				if shared && (IsMutator(op.K) || op.K == h.OpAdd || op.K == h.OpJoin || op.K == h.OpJoinFirst) {
 					continue
 				}
 				cand := cloneScenario(cur)
@@ -295,7 +295,7 @@ func dropBar(sc *h.Scenario, b int) {
 	sc.Initial = init
 	usesBar := func(op h.Op) bool {
 		switch op.K {
-		case h.OpWrite, h.OpRefresh, h.OpCloseDelay, h.OpCancel, h.OpShutdown, h.OpSleep, h.OpReadNotifier, h.OpWait, h.OpJoin, h.OpFair:
+		case h.OpWrite, h.OpRefresh, h.OpCloseDelay, h.OpCancel, h.OpShutdown, h.OpSleep, h.OpReadNotifier, h.OpWait, h.OpJoin, h.OpFair, h.OpJoinFirst:
 			return false
 		}
 		return op.Bar == b
